@@ -327,6 +327,14 @@ def gen_boundary_history(rng, path, n):
     return ops
 
 
+def gen_boundary_minimal(rng, path, n):
+    """one payload on the length-code boundary: written, read, reopened, read (short enough for the extracted model)"""
+    q, dim, metric = 8, 2, 0
+    return [{'op': 40, 'dim': dim, 'q': q, 'metric': metric, 'json': options_json(path, metric, dim, q)},
+            {'op': 20, 'id': 5, 'vec': P(data=random_vec_bytes(rng, q, dim)), 'meta': P(seed=rng.randrange(1, 10**6), n=n)},
+            {'op': 23, 'id': 5}, {'op': 30, 'mode': 1}, {'op': 23, 'id': 5}]
+
+
 def is_big(ops):
     return any(isinstance(o.get(k), P) and (o[k].n or 0) > 300000 for o in ops for k in ('meta', 'vec'))
 
